@@ -21,10 +21,12 @@ func verifDecode(out []byte) ([]models.Entry, bool) {
 
 // The payload of an archlinux package is exactly the reference plan; one
 // family of inputs is symbolic per harness.
-func Verif_C01_C_ArchModes()   { verifArchPayload(scen.Options{SymModes: true, Second: -1}) }
-func Verif_C01_C_ArchOwners()  { verifArchPayload(scen.Options{SymOwners: true, Second: 1}) }
-func Verif_C01_C_ArchTimes()   { verifArchPayload(scen.Options{SymTimes: true, Second: 3}) }
-func Verif_C01_C_ArchContent() { verifArchPayload(scen.Options{SymContent: true, SymDst: true, SymType: true, Second: -1}) }
+func Verif_C01_C_ArchModes()  { verifArchPayload(scen.Options{SymModes: true, Second: -1}) }
+func Verif_C01_C_ArchOwners() { verifArchPayload(scen.Options{SymOwners: true, Second: 1}) }
+func Verif_C01_C_ArchTimes()  { verifArchPayload(scen.Options{SymTimes: true, Second: 3}) }
+func Verif_C01_C_ArchContent() {
+	verifArchPayload(scen.Options{SymContent: true, SymDst: true, SymType: true, Second: -1})
+}
 
 func verifArchPayload(o scen.Options) {
 	sc := scen.Payload(o)
